@@ -10,6 +10,8 @@
      neighbour move, layer push / pop as in YkIscan; early_abort turns every failed re-validation into WARN_CONCURRENT_OPERATIONS.
    Dead nodes stay in the node map (YkTree keeps them with their deleted flag), so a saved pointer can always be inspected. *)
 EXTENDS YkIscan
+CONSTANTS BUGGY_F18,   \* TRUE: a deleted saved layer root below layer 0 always means "the layer is gone" (the pinned tree: the rest of a layer whose interior root collapsed is skipped)
+          BUGGY_F19    \* TRUE: a deleted neighbour at the end of a border sends an early_abort cursor to retry_from_root instead of returning the warning
 ElemR(key, root, bn, cmp, v, perm, rank) == [key |-> key, root |-> root, bn |-> bn, cmp |-> cmp, v |-> v, perm |-> perm, rank |-> rank]
 Res(st, stack, out, cbs) == [st |-> st, stack |-> stack, out |-> out, cbs |-> cbs]
 CheckRetry(nd, b, v, perm) == LET cur == nd[b].ver p == nd[b].perm IN
@@ -46,6 +48,12 @@ RunR(mode, nd, rt, stack, cbs, L, C, ea, fuel) ==
       LET e == TopR(stack) root == e.root rv == nd[root].ver depth == Len(stack) IN
       IF rv.del THEN
          (IF depth = 1 THEN (IF root # rt THEN RunR("RR", nd, rt, SetTopR(stack, [e EXCEPT !.root = rt]), cbs, L, C, ea, fuel - 1) ELSE Res("END", stack, <<>>, cbs))
+          ELSE IF ~BUGGY_F18 /\ nd[root].t = "I" THEN
+               \* only the root of the layer was replaced (interior root collapsed): the new root is fetched through the link of the upper layer
+               LET up == stack[depth - 1] ub == nd[up.bn] s == FindSlot(ub, up.key)
+                   nr == IF s # -1 /\ ub.lv[s][1] = "L" THEN ub.lv[s][2] ELSE NULL IN
+               IF nr # NULL THEN RunR("RR", nd, rt, SetTopR(stack, [e EXCEPT !.root = nr]), cbs, L, C, ea, fuel - 1)
+               ELSE RunR("NL", nd, rt, SubSeq(stack, 1, depth - 1), cbs, L, C, ea, fuel - 1)
           ELSE RunR("NL", nd, rt, SubSeq(stack, 1, depth - 1), cbs, L, C, ea, fuel - 1))
       ELSE IF ~rv.root THEN
          (IF depth = 1 THEN RunR("RR", nd, rt, SetTopR(stack, [e EXCEPT !.root = rt]), cbs, L, C, ea, fuel - 1)
@@ -93,7 +101,7 @@ RunR(mode, nd, rt, stack, cbs, L, C, ea, fuel) ==
                                    RunR("NL", nd, rt, st2, cbs2, L, C, ea, fuel - 1)
                     ELSE Res("OK", SetTopR(stack, [TopR(stack) EXCEPT !.bn = L.b, !.key = kt, !.rank = L.i + 1]), <<bn.lv[sl][2]>>, Append(cbs, <<L.v, L.b>>)))
       ELSE \* permutation done: neighbour
-         IF to # NULL /\ nd[to].ver.del THEN RunR("RR", nd, rt, stack, cbs, L, C, ea, fuel - 1)
+         IF to # NULL /\ nd[to].ver.del THEN (IF ea /\ ~BUGGY_F19 THEN Res("WARN", stack, <<>>, cbs) ELSE RunR("RR", nd, rt, stack, cbs, L, C, ea, fuel - 1))
          ELSE IF chk.st # "OK" THEN fail
          ELSE LET cbs2 == IF L.cmp = 0 /\ C.eep = "INC" /\ L.lastk = ekt THEN cbs ELSE Append(cbs, <<L.v, L.b>>) IN
               IF to = NULL THEN Res(IF L.cmp = 0 THEN "END" ELSE "CONT", stack, <<>>, cbs2)
